@@ -903,7 +903,7 @@ theorem amountMap_lt (n amount : Nat) (ha : 0 < amount) : ∀ j ∈ H1.amountMap
 /-- **`merge_bins(amount)` of a 1-D histogram** whose runs have no inner gaps: accepted; the new
     bins are `mergedBins`; contents and squared errors are the run sums (`mergeVals`, see
     `C10_run_content`) and keep their totals. -/
-theorem H1.mergeAmount_spec (fo : FloatOps) (h : H1) (amount : Nat) (ha : 0 < amount)
+theorem H1.mergeAmount_spec (fo : FloatOps) (h : H1) (amount : Nat) (ha : 0 < amount) (hpos : 0 < h.freq.length)
     (hlen : h.freq.length = (h.bins fo).length) (hc : RunsMeet (h.bins fo) amount) :
     ∃ r, h.mergeAmount fo amount = .ok r ∧
       r.bins fo = mergedBins (h.bins fo) amount ∧
@@ -922,8 +922,12 @@ theorem H1.mergeAmount_spec (fo : FloatOps) (h : H1) (amount : Nat) (ha : 0 < am
           (h.binning.ire && ((mergedBins (h.bins fo) amount).getLast?.map (·.2) == (h.bins fo).getLast?.map (·.2))),
         freq := H1.mergeVals h.freq (H1.amountMap h.freq.length amount) (mergedBins (h.bins fo) amount).length,
         err2 := H1.mergeVals h.err2 (H1.amountMap h.freq.length amount) (mergedBins (h.bins fo) amount).length } := by
+    have hemp : (H1.amountMap h.freq.length amount).isEmpty = false := by
+      cases hl : h.freq.length with
+      | zero => omega
+      | succ k => simp [H1.amountMap, List.range_succ_eq_map]
     unfold H1.mergeAmount H1.mergeWithMap
-    simp only [bind, Except.bind, pure, Except.pure, hne, if_false, hm]
+    simp only [bind, Except.bind, pure, Except.pure, hne, if_false, hm, hemp, Bool.false_eq_true]
   refine ⟨_, hrun, rfl, hL, ?_, ?_, ?_, ?_⟩
   · simp only [hL]
   · simp only [hL]
@@ -938,7 +942,7 @@ theorem H1.mergeAmount_spec (fo : FloatOps) (h : H1) (amount : Nat) (ha : 0 < am
     and squared errors are gathered by `Arr.mergeAxis` (entry by entry the run sums, `C09_gather`)
     and keep their totals. -/
 theorem HN.mergeAxis_amount (fo : FloatOps) (h : HN) (axis amount : Nat) (thr : Option Rat) (bn : Binning)
-    (ha : 0 < amount) (hbn : h.axes[axis]? = some bn)
+    (ha : 0 < amount) (hbn : h.axes[axis]? = some bn) (hpos : 0 < (bn.bins fo).length)
     (hn : h.freq.shape[axis]?.getD 0 = (bn.bins fo).length) (hc : RunsMeet (bn.bins fo) amount) :
     ∃ r ire, h.mergeAxis fo axis (some amount) thr = .ok r ∧
       r.axes = h.axes.set axis (.static (mergedBins (bn.bins fo) amount) ire) ∧
@@ -960,8 +964,12 @@ theorem HN.mergeAxis_amount (fo : FloatOps) (h : HN) (axis amount : Nat) (thr : 
           (bn.ire && ((mergedBins (bn.bins fo) amount).getLast?.map (·.2) == (bn.bins fo).getLast?.map (·.2)))),
         freq := h.freq.mergeAxis axis (H1.amountMap (bn.bins fo).length amount) (mergedBins (bn.bins fo) amount).length,
         err2 := h.err2.mergeAxis axis (H1.amountMap (bn.bins fo).length amount) (mergedBins (bn.bins fo) amount).length } := by
+    have hemp : (H1.amountMap (bn.bins fo).length amount).isEmpty = false := by
+      cases hl : (bn.bins fo).length with
+      | zero => omega
+      | succ k => simp [H1.amountMap, List.range_succ_eq_map]
     unfold HN.mergeAxis HN.mergeAxisWithMap
-    simp only [bind, Except.bind, pure, Except.pure, hne, if_false, hbn, hn, hm]
+    simp only [bind, Except.bind, pure, Except.pure, hne, if_false, hbn, hn, hm, hemp, Bool.false_eq_true]
   refine ⟨_, _, hrun, rfl, ?_, ?_, ?_, rfl, rfl, ?_, ?_⟩
   · simp only [hL]
   · simp only [hL]
